@@ -493,7 +493,9 @@ func runC17(env *lib.Env, rep *lib.Report) {
 	if env.Thorough() {
 		depth = 6
 	}
-	seeds := []string{"empty", "a-with-row+b", "a-with-12-rows+b", "journeys", "journeys-7-tables", "a-with-long-log+b"}
+	// ("journeys/leaf3-int3": the journeys at node capacity 3 - the 12-row table has three levels, and the inserts of a
+	// journey split interior pages)
+	seeds := []string{"empty", "a-with-row+b", "a-with-12-rows+b", "journeys", "journeys-7-tables", "a-with-long-log+b", "journeys/leaf3-int3"}
 	rep.Bounds["depth"] = fmt.Sprintf("quick: 4 from the one-row seed and from the empty directory, 3 from the flushed 12-row seed, 2 from the seed with a long log (130 single-row statements); thorough: 6 / 5 / 4 / 4 (this run: tier depth %d)", depth)
 	rep.Bounds["seeds"] = seeds
 	rep.Bounds["journeys"] = "from the flushed 12-row seed and from a flushed seed with seven tables (t holding 8 rows): every sequence of 5 (thorough 6) steps over {TICK, UPDATE all rows, UPDATE last row, INSERT, USE b + USE a, USE a, RESTART + USE a}"
@@ -506,6 +508,10 @@ func runC17(env *lib.Env, rep *lib.Report) {
 		seed := seeds[c.Choose(len(seeds), "seed")]
 		w := &c17World{c: c, dbs: map[string]*c17DB{}, known: known}
 		storage.VerifInstall(true, 0, 0, 0)
+		if seed == "journeys/leaf3-int3" {
+			storage.VerifInstall(true, 3, 3, 0)
+			seed = "journeys"
+		}
 		w.dir = worldScratch()
 		os.Chdir(w.dir)
 		defer func() {
